@@ -169,11 +169,16 @@ PROPS["C19"] = {
     "n": {"quick": 700, "thorough": 6000},
     "level": "proof",
     "search_factor": 2,
-    "rule": "(filled in below)",
-    "trusted_base": TB_COMMON + [],
-    "assumptions": [],
-    "level_text": "Coq theorems over ALL row values and ALL targets (any nesting of Option/Vec/tuples; all 8 integer targets x both integer kinds x all 2^64 integers of either signedness), closed under the global context: an in-range integer decodes to exactly itself and an out-of-range one is a returned Err(range), never a wrapped/truncated number (decode_int_range/int_ok/int_spec, also at row level); outside the two F16 classes every Ok result denotes the row value (decode_exact: same integer/string/bool/float bits, None iff null, element-wise lists, f32 numerically equal to the f64); the full-strength statement is refuted with the witnesses Int64(2^53+1)->f64, Uint64(u64::MAX)->f64, Float64(1e300)->f32=inf; the classes are characterised exactly (the `as` result equals the source iff the integer has <= 53/24 significant bits, resp. iff some finite binary32 equals the binary64 value) from a proved round-to-nearest-even model valid for any precision; decoding panics iff it reaches a FieldValue::Enum (todo!(), new finding F19) and otherwise returns Ok/Err; Null into Option is None and into anything else an Err, tuple length mismatch is an Err, no kind coercion; rows: every present field holds the decoding of its row value, an absent key is accepted only for Option fields (None), extra keys are ignored without inspecting their value; edge parameters use the same function. The tie re-runs try_into_struct of the current /repo build (with the real serde) against the model on ~12k cases per run, including 18 real EdgeParameters maps from the frontend, and the oracle re-checks exactness of every result with i128/bit arithmetic.",
-    "level_note": "(filled in below)",
+    "rule": "each evaluation is one schema document, parsed by the real async_graphql_parser::parse_schema, its ServiceDocument walked into the Gallina AST, Schema::new run under catch_unwind and rendered as OK / PANIC / ERR:<every error variant with all its identifying strings, in the implementation's order>. Fixed corpus every run: the harness world schema, /repo test_data/schemas/*.graphql, tests/valid_schemas/*.graphql (must be accepted), tests/schema_errors/*.graphql (must reproduce the repository's expected .ron error exactly), 27 minimal witnesses of the known classes and of the boundaries around them (30 vs 31 list levels, duplicate type before/after a second schema block, enum default behind an earlier mismatch, duplicate parameter names, cycle plus waiting type), 2 AST-only documents (empty ServiceDocument, schema block with query = None). Seeded stream of n documents: 30% random VALID schemas (1-6 vertex types + root under random names/orders, interface hierarchies with transitively closed implements in shuffled order, inherited edges narrowed to subtypes and in nullability, inherited parameters contravariantly widened, properties of every builtin scalar up to 30 list levels, edge parameters with type-correct defaults incl. u64/i64 limits, 1-4 entry points, custom scalars, directive definitions, everything in shuffled document order); 35% one violation out of 22 (one per error variant, several shapes each) applied to a valid schema; 20% combinations of 2-3 violations; 15% the F12 constructs (16 shapes incl. their interplay with the early-return errors). A case is non-trivial when the document has >= 2 vertex types and an implements relation or is not accepted; distinct by AST. Direct oracle on the implementation, independent of the model: no panic; Schema::parse(text) = Schema::new(parse_schema(text)); generated valid schemas are accepted; violated schemas are rejected with the error kinds of exactly the violated rules (required kinds present, nothing outside required + knock-on kinds; duplicate-name violations give exactly one error).",
+    "trusted_base": TB_COMMON + [
+        "async_graphql_parser 7.2.1 (text -> ServiceDocument) is NOT modelled: theorems quantify over ALL abstract documents (SchemaAst.v) and the tie feeds the model the AST the real parser produced; claimed partial w.r.t. raw text",
+        "HashMap<Arc<str>,_> / HashMap<(Arc<str>,Arc<str>),_> are modelled as association lists in insertion order with first-match lookup (they are only used for lookups and for `.iter().sorted_by_key(name)`); BTreeMap/BTreeSet as key-sorted lists under byte-wise String.compare (= Rust str order); so the ORDER of reported errors is part of the tie and does not depend on hash order",
+        "Type::from_type / is_valid_value / is_scalar_only_subtype / Display are the Ty.v transcriptions (tied by C17/C16); default values are the FieldValue produced by the real TryFrom<ConstValue> (conversion failure = BadDefault)",
+        "constructs with documented unimplemented! (extend, enum, union, input object definitions) are outside the property and the AST; the harness skips such documents",
+    ],
+    "assumptions": ["the document is outside the ten known-defect classes (each a boolean predicate on the AST, SchemaSpec.v): K-no-schema-block, K-dup-schema-block, K-schema-without-query, K-builtin-scalar-redeclared, K-dup-scalar, K-dup-directive, K-undefined-query-type, K-interface-query-type, K-list-depth, K-enum-default"],
+    "level_text": "Coq theorems, closed under the global context, over ALL schema documents (any number of definitions, any names, any nesting): outside the known classes Schema::new never panics (all 19 Panic sites of the transcription unreachable, fuel |types|+1 adequate for the get_field_origins work queue) and returns the empty error list EXACTLY when the document satisfies the declarative rule set valid_schema (unique type/field names; implemented types exist, are interfaces, transitively implemented; inherited fields present and only narrowed: is_subtype = inductive compatibility relation, equal parameter name sets, contravariant scalar parameter types with last-duplicate-wins semantics; field types builtin or defined; no reserved names; no edge into the root, root has only edges; properties without parameters; edges at most one list level; defaults fit structurally; a topological numbering of implements exists; every field has a single origin under an inductive origin relation). Also proved per check: each check function reports nothing iff its rule holds; cycle error iff no topological numbering; ambiguity errors iff two distinct origins. The full statement is refuted by one vm_compute witness per known class (genuine panics of the implementation, reproduced by the tie every run). The tie re-runs Schema::new of the current /repo build against the model on ~800 documents per run, comparing complete ordered error lists.",
+    "level_note": "Proof over the AST, PARTIAL w.r.t. raw text (third-party parser not modelled). Known classes over-approximate the panicking documents (e.g. a duplicate type name before a second schema block returns the early error instead). Trusted: Coq kernel; the transcription SchemaNew.v (tied by the differential run only) over Ty.v; the harness AST walker and renderers.",
 }
 
 
@@ -230,4 +235,4 @@ HOOK_COMMITS = ["c2bf0a1 verif hooks: cfg(trustfall_verif)-guarded exports of fi
 
 # Properties whose check has been verified by the coordinator to pass on the unchanged tree; only these are
 # claimed in MANIFEST.json (tools/gen_manifest.py).  Entries in PROPS that are not READY are work in progress.
-READY = {"C01", "C06", "C07", "C08", "C09", "C12", "C17", "C18", "C27"}
+READY = {"C01", "C06", "C07", "C08", "C09", "C12", "C17", "C18", "C19", "C26", "C27"}
